@@ -286,9 +286,12 @@ def stateful_of(eng, v, symbolic_only=True):
         if s is not None:
             return LazyIter(s)
         if isinstance(v, I.GeneratorValue):
-            items = v.items[v.pos:]
-            v.pos = len(v.items)
-            return LazyIter(seq_of(eng, items))
+            # one shared cursor per iterator object: later consumers of the same iterator continue where this one stops
+            if getattr(v, "_lazy", None) is None:
+                items = v.items[v.pos:]
+                v.pos = len(v.items)
+                v._lazy = LazyIter(seq_of(eng, items))
+            return v._lazy
     return None
 
 
